@@ -5,6 +5,8 @@
 // and logs outcome class, exception type, NaN-ness of every output, whether outputs changed.  Built with
 // ASan+UBSan; a sanitizer report aborts the process and the check script records the vector being executed.
 #include <csignal>
+#include <cstdlib>
+#include <new>
 #include <cstring>
 #include <sys/time.h>
 #include "trace.hpp"
@@ -53,6 +55,16 @@
 #include <sstream>
 #include <sys/stat.h>
 
+// Replaced global allocation functions: count allocations and fail the k-th one on demand (do_nninit); otherwise malloc / free.
+static long long g_alloc_count, g_alloc_fail_at; static bool g_alloc_armed;
+void* operator new(std::size_t n) {
+  if (g_alloc_armed && ++g_alloc_count == g_alloc_fail_at) throw std::bad_alloc();
+  void* p = std::malloc(n ? n : 1); if (!p) throw std::bad_alloc(); return p; }
+void* operator new[](std::size_t n) { return operator new(n); }
+void operator delete(void* p) noexcept { std::free(p); }
+void operator delete[](void* p) noexcept { std::free(p); }
+void operator delete(void* p, std::size_t) noexcept { std::free(p); }
+void operator delete[](void* p, std::size_t) noexcept { std::free(p); }
 using namespace GeographicLib;
 using namespace std;
 typedef vector<double> V;
@@ -395,6 +407,52 @@ static void do_nn(const vector<string>& t) {
   r.emit(); fflush(stdout);
 }
 
+// ---- failure injection into NearestNeighbor::Initialize on an initialised object: the k-th evaluation of the distance function
+// throws, or the k-th allocation fails ("If an exception is thrown, the state of the NearestNeighbor is unchanged")
+static long long g_dist_count = 0, g_dist_fail_at = -1; static bool g_dist_armed = false;
+struct TDist { double operator()(double a, double b) const {
+  if (g_dist_armed && ++g_dist_count == g_dist_fail_at) throw GeographicErr("injected failure of the distance function");
+  return fabs(a - b); } };
+typedef NearestNeighbor<double, double, TDist> TNN;
+static string nn_text(const TNN& n) { ostringstream os; n.Save(os, false); return os.str(); }
+static bool nn_same(const TNN& a, const TNN& b, const vector<double>& pts) {   // same observable state (for searches on pts)
+  static const double Q[] = {-10.0, 0.0, 25.5, 50.0, 99.9, 200.0};
+  try {
+    if (a.NumPoints() != b.NumPoints() || nn_text(a) != nn_text(b)) return false;
+    for (int q = 0; q < 6; ++q) for (int all = 0; all < 2; ++all) { vector<int> i1, i2;
+      double d1 = a.Search(pts, TDist(), Q[q], i1, all ? int(pts.size()) + 2 : 3), d2 = b.Search(pts, TDist(), Q[q], i2, all ? int(pts.size()) + 2 : 3);
+      if (!(i1 == i2) || !(d1 == d2 || (d1 != d1 && d2 != d2))) return false; }
+    return true; }
+  catch (...) { return false; }
+}
+static void do_nninit(const vector<string>& t) {
+  // nninit <old size> <new size> <bucket> <fault kind: dist|alloc|none> <k>
+  int nold = atoi(t[1].c_str()), nnew = atoi(t[2].c_str()); long long bucket = atoll(t[3].c_str()); const string& fk = t[4]; long long k = atoll(t[5].c_str());
+  vector<double> po((size_t) nold), pn((size_t) nnew); vt::Rng g1(5), g2(9);
+  for (auto& x : po) x = g1.uni(0, 100); for (auto& x : pn) x = g2.uni(0, 100);
+  bool badb = bucket < 0 || bucket > 10; int bk = int(bucket);
+  // what the unfaulted call uses, measured on an object in the same state
+  long long ncall = 0, nalloc = 0;
+  if (!badb) { TNN a(po, TDist(), 4);
+    g_dist_count = 0; g_dist_fail_at = -1; g_dist_armed = true; g_alloc_count = 0; g_alloc_fail_at = -1; g_alloc_armed = true;
+    a.Initialize(pn, TDist(), bk);
+    g_dist_armed = false; g_alloc_armed = false; ncall = g_dist_count; nalloc = g_alloc_count; }
+  TNN ref(po, TDist(), 4), b(po, TDist(), 4);
+  string res;
+  g_dist_count = 0; g_alloc_count = 0; g_dist_fail_at = fk == "dist" ? k : -1; g_alloc_fail_at = fk == "alloc" ? k : -1;
+  g_dist_armed = true; g_alloc_armed = true;
+  try { b.Initialize(pn, TDist(), bk); g_dist_armed = false; g_alloc_armed = false; res = "ok"; }
+  catch (const GeographicErr&) { g_dist_armed = false; g_alloc_armed = false; res = "GeographicErr"; }
+  catch (const std::bad_alloc&) { g_dist_armed = false; g_alloc_armed = false; res = "bad_alloc"; }
+  catch (const std::exception&) { g_dist_armed = false; g_alloc_armed = false; res = "std::exception"; }
+  catch (...) { g_dist_armed = false; g_alloc_armed = false; res = "unknown"; }
+  bool kept = false, fresh = false;
+  if (res == "ok") { if (!badb) { TNN f(pn, TDist(), bk); fresh = nn_same(b, f, pn); } }
+  else kept = nn_same(b, ref, po);
+  vt::Rec r; r.str("e", "nninit").i("old", nold).i("new", nnew).i("bucket", bucket).str("fk", fk).i("k", k).i("ncall", ncall).i("nalloc", nalloc)
+    .str("out", res).b("kept", kept).b("fresh", fresh);
+  r.emit(); fflush(stdout);
+}
 
 // ---- malformed model files: MagneticModel / GravityModel constructors on faulted metadata (.wmm/.egm) and coefficient (.cof) files
 static void mf_put_i32(string& f, int v) { for (int i = 0; i < 4; ++i) f.push_back(char(((unsigned) v) >> (8 * i))); }
@@ -548,7 +606,7 @@ int main(int argc, char** argv) {
     // announce the vector before executing it, so that a crash is attributable
     fprintf(stderr, "@ %lld %s\n", n, line.c_str()); fflush(stderr);
     arm_watchdog(wd);   // watchdog: a vector that does not return within wd CPU-seconds is a hang (exit code 124), attributed to this vector
-    if (t[0] == "call") do_call(t); else if (t[0] == "str") do_str(t); else if (t[0] == "nn") do_nn(t); else if (t[0] == "mfile") do_mfile(t); else if (t[0] == "gfile") do_gfile(t);
+    if (t[0] == "call") do_call(t); else if (t[0] == "str") do_str(t); else if (t[0] == "nn") do_nn(t); else if (t[0] == "nninit") do_nninit(t); else if (t[0] == "mfile") do_mfile(t); else if (t[0] == "gfile") do_gfile(t);
   }
   return 0;
 }
